@@ -139,8 +139,12 @@ pub(crate) struct CMsgIter {
 
 impl CMsgIter {
     pub(crate) fn new(ptr: *const u8, len: usize) -> Self {
-        assert!(len >= unsafe { CMSG_SPACE(0) as _ }, "buffer too short");
-        assert!(ptr.cast::<cmsghdr>().is_aligned(), "misaligned buffer");
+        // A buffer shorter than one header holds no message (`CMSG_FIRSTHDR` yields null)
+        // and is never dereferenced.
+        assert!(
+            len < size_of::<cmsghdr>() || ptr.cast::<cmsghdr>().is_aligned(),
+            "misaligned buffer"
+        );
 
         let msg = msghdr_from_raw(ptr.cast_mut(), len);
         let first_cmsg = unsafe { CMSG_FIRSTHDR(&msg) };
